@@ -443,6 +443,14 @@ SetProp(T, p, kind, pname, val) ==
     IF ~Has(T, p) THEN Fail(T, "NoSuchElement")
     ELSE IF kind = "sp" THEN Ok([T EXCEPT !.el[p].sp = Upd(@, pname, val)])
     ELSE Ok([T EXCEPT !.el[p].rp = Upd(@, pname, val)])
+\* several properties in one call: all are checked before anything is written (one bad name / badly typed value => nothing)
+RECURSIVE FoldProps(_, _, _, _)
+FoldProps(T, p, items, i) == IF i > Len(items) THEN T ELSE FoldProps(SetProp(T, p, items[i].kind, items[i].pname, IF items[i].kind = "sp" THEN items[i].val ELSE Fn(items[i].val)).st, p, items, i + 1)
+SetProps(T, p, items, bad) ==
+    IF ~Has(T, p) THEN Fail(T, "NoSuchElement")
+    ELSE IF bad = "unknown" THEN Fail(T, "AttributeError")
+    ELSE IF bad = "type" THEN Fail(T, "AssertionError")
+    ELSE Ok(FoldProps(T, p, items, 1))
 UnsetProp(T, p, kind, pname) ==
     IF ~Has(T, p) THEN Fail(T, "NoSuchElement")
     ELSE IF kind = "sp" THEN (IF pname \notin DOMAIN T.el[p].sp THEN Fail(T, QErr) ELSE Ok([T EXCEPT !.el[p].sp = Without(@, {pname})]))
@@ -638,6 +646,7 @@ ApplyRaw(T, o) ==
       [] o.op = "AddInterface"   -> AddInterface(T, o.s, o.name, o.itype)
       [] o.op = "Rename"         -> Rename(T, o.p, o.new)
       [] o.op = "SetProp"        -> SetProp(T, o.p, o.kind, o.pname, IF o.kind = "sp" THEN o.val ELSE Fn(o.val))
+      [] o.op = "SetProps"       -> SetProps(T, o.p, o.items, o.bad)
       [] o.op = "UnsetProp"      -> UnsetProp(T, o.p, o.kind, o.pname)
       [] o.op = "Views"          -> Views(T)
       [] o.op = "HandleIfs"      -> HandleIfs(T, o.p)
